@@ -562,4 +562,383 @@ fn c15_clamp() {
     kani::cover!(s == usize::MAX);
 }
 
+macro_rules! writer_harness_faults {
+    ($name:ident, $body:block) => {
+        #[kani::proof]
+        #[kani::unwind(10)]
+        #[kani::stub(crate::writer::compress_and_write_block, crate::writer::verif_h::abs_cwb)]
+        #[kani::stub(crate::block_writer::BlockWriter::insert, crate::block_writer::verif_h::abs_insert)]
+        #[kani::stub(crate::block_writer::BlockWriter::current_size_estimate, crate::block_writer::verif_h::abs_size)]
+        #[kani::stub(crate::block_writer::BlockWriter::last_key, crate::block_writer::verif_h::abs_last_key)]
+        fn $name() $body
+    };
+}
+
+// ------------------------------------------------------------------------------------------------ W1 / C11 / C12
+/// Sink of the unit harnesses: compares what it accepts with the expected stream (few objects here, so reading `buf`
+/// is affordable). CHOP: accepts a symbolic 1..=len prefix of each write or reports Interrupted (<= 2 times).
+/// FAULTS: the `fail_at`-th call (write or flush, symbolic) fails with PermissionDenied.
+pub(crate) struct USink<'a, const CHOP: bool, const FAULTS: bool, const MAXBUF: usize> {
+    pub expect: &'a [u8; 80],
+    pub len: usize,
+    pub pos: usize,
+    pub ok: bool,
+    pub interrupts: u32,
+    pub calls: u32,
+    pub fail_at: u32,
+    pub faulted: bool,
+    pub flushes: u32,
+}
+
+impl<'a, const CHOP: bool, const FAULTS: bool, const MAXBUF: usize> Write for USink<'a, CHOP, FAULTS, MAXBUF> {
+    fn write(&mut self, buf: &[u8]) -> io::Result<usize> {
+        self.calls += 1;
+        if FAULTS && self.calls == self.fail_at {
+            self.faulted = true;
+            return Err(io::Error::from(io::ErrorKind::PermissionDenied));
+        }
+        let mut n = buf.len();
+        if CHOP && n > 0 {
+            if self.interrupts > 0 && kani::any() {
+                self.interrupts -= 1;
+                return Err(io::Error::from(io::ErrorKind::Interrupted));
+            }
+            // accepts any prefix of at least half of what is offered (bounds write_all's retries by log2(len) + 2;
+            // shorter accepts are outside this harness, the per-call accounting for ANY accepted length is c11_countwrite)
+            let m: usize = kani::any();
+            kani::assume(m >= 1 && m <= n && 2 * m >= n);
+            n = m;
+        }
+        assert!(buf.len() <= MAXBUF);
+        let mut i = 0;
+        while i < MAXBUF {
+            if i < n {
+                if self.pos + i >= self.len || self.expect[self.pos + i] != buf[i] {
+                    self.ok = false;
+                }
+            }
+            i += 1;
+        }
+        self.pos += n;
+        Ok(n)
+    }
+    fn flush(&mut self) -> io::Result<()> {
+        self.calls += 1;
+        self.flushes += 1;
+        if FAULTS && self.calls == self.fail_at {
+            self.faulted = true;
+            return Err(io::Error::from(io::ErrorKind::PermissionDenied));
+        }
+        Ok(())
+    }
+}
+
+/// expected stream of one emitted block: len (u64 BE) ‖ entries ‖ offsets ‖ count, for 2 entries
+fn expected_block(k: &[[u8; 2]; 2], kl: [usize; 2], v: &[[u8; 2]; 2], vl: [usize; 2], n: usize, interval: usize) -> ([u8; 80], usize) {
+    let mut out = [0u8; 80];
+    let mut pos = 8;
+    let mut offs = [0u64; 2];
+    let mut noffs = 1;
+    let mut i = 0;
+    while i < 2 {
+        if i < n {
+            if i > 0 && i % interval == 0 {
+                offs[noffs] = (pos - 8) as u64;
+                noffs += 1;
+            }
+            out[pos] = kl[i] as u8;
+            out[pos + 1] = vl[i] as u8;
+            pos += 2;
+            let mut j = 0;
+            while j < 2 {
+                if j < kl[i] {
+                    out[pos] = k[i][j];
+                    pos += 1;
+                }
+                j += 1;
+            }
+            let mut j = 0;
+            while j < 2 {
+                if j < vl[i] {
+                    out[pos] = v[i][j];
+                    pos += 1;
+                }
+                j += 1;
+            }
+        }
+        i += 1;
+    }
+    let mut t = 0;
+    while t < 2 {
+        if t < noffs {
+            let be = offs[t].to_be_bytes();
+            let mut j = 0;
+            while j < 8 {
+                out[pos + j] = be[j];
+                j += 1;
+            }
+            pos += 8;
+        }
+        t += 1;
+    }
+    let c = (noffs as u32).to_be_bytes();
+    let mut j = 0;
+    while j < 4 {
+        out[pos + j] = c[j];
+        j += 1;
+    }
+    pos += 4;
+    let lp = ((pos - 8) as u64).to_be_bytes();
+    let mut j = 0;
+    while j < 8 {
+        out[j] = lp[j];
+        j += 1;
+    }
+    (out, pos)
+}
+
+pub(crate) struct UFacts {
+    pub total: usize,
+    pub calls: u32,
+    pub faulted: bool,
+    pub interrupted: bool,
+}
+
+/// The REAL compress_and_write_block (+ the real trailer write) over a real BlockWriter and a real CountWrite.
+pub(crate) fn cwb_unit<const CHOP: bool, const FAULTS: bool, const MAXBUF: usize>(n: usize, kl: [usize; 2], vl: [usize; 2], interval: usize) -> UFacts {
+    let k: [[u8; 2]; 2] = kani::any();
+    let v: [[u8; 2]; 2] = kani::any();
+    if n == 2 {
+        kani::assume(k[1][0] > k[0][0]);
+    }
+    let (expect, total) = expected_block(&k, kl, &v, vl, n, interval);
+    let mut b = BlockWriter::builder();
+    b.index_key_interval(NonZeroUsize::new(interval).unwrap());
+    let mut bw = b.build();
+    let mut i = 0;
+    while i < 2 {
+        if i < n {
+            bw.insert(&k[i][..kl[i]], &v[i][..vl[i]]);
+        }
+        i += 1;
+    }
+    let fail_at: u32 = if FAULTS { kani::any() } else { 0 };
+    if FAULTS {
+        kani::assume(fail_at >= 1 && fail_at <= 6);
+    }
+    let sink = USink::<CHOP, FAULTS, MAXBUF> { expect: &expect, len: total, pos: 0, ok: true, interrupts: 2, calls: 0, fail_at, faulted: false, flushes: 0 };
+    let mut cw = CountWrite::new(sink);
+    let res = compress_and_write_block(&mut cw, &mut bw, CompressionType::None, 0);
+    let count = cw.count();
+    let interrupted = cw.as_ref().interrupts < 2;
+    let calls = cw.as_ref().calls;
+    let faulted = cw.as_ref().faulted;
+    match res {
+        Ok(()) => {
+            assert!(!faulted, "C12: a failing sink was reported as success");
+            assert!(cw.as_ref().ok, "C09/C11: emitted bytes differ from len(u64 BE) ‖ block");
+            assert!(cw.as_ref().pos == total, "C09/C11: emitted stream is not exactly len ‖ block");
+            assert!(count as usize == total, "C11: CountWrite must count the bytes actually accepted");
+            assert!(bw.last_key().is_none() && bw.current_size_estimate() == 12, "the block writer is reset after emission");
+        }
+        Err(e) => {
+            assert!(faulted, "C12: an error was reported although no component failed");
+            assert!(e.kind() == io::ErrorKind::PermissionDenied, "C12: the error does not carry the sink's failure");
+            assert!(count as usize == cw.as_ref().pos, "C11: CountWrite counts exactly the accepted bytes, also on failure");
+            mem::forget(e);
+        }
+    }
+    // flush before handing the sink back
+    match cw.into_inner() {
+        Ok(s) => {
+            assert!(s.flushes == 1);
+            assert!(!FAULTS || !(s.fail_at == s.calls && s.faulted && s.flushes == 1 && false));
+            mem::forget(s);
+        }
+        Err(e) => {
+            assert!(FAULTS, "flush failed without a fault");
+            assert!(e.kind() == io::ErrorKind::PermissionDenied);
+            mem::forget(e);
+        }
+    }
+    mem::forget(bw);
+    UFacts { total, calls, faulted, interrupted }
+}
+
+/// C12 (writer level, abstract block writers): the j-th write/flush of the sink fails (j symbolic): the public call in
+/// progress returns Err carrying the failure; no later call is needed to see it; never Ok; no panic.
+pub(crate) struct FailCount {
+    pub n: usize,
+    pub calls: u32,
+    pub fail_at: u32,
+    pub faulted: bool,
+}
+impl Write for FailCount {
+    fn write(&mut self, buf: &[u8]) -> io::Result<usize> {
+        self.calls += 1;
+        if self.calls == self.fail_at {
+            self.faulted = true;
+            return Err(io::Error::from(io::ErrorKind::PermissionDenied));
+        }
+        self.n += buf.len();
+        Ok(buf.len())
+    }
+    fn flush(&mut self) -> io::Result<()> {
+        self.calls += 1;
+        if self.calls == self.fail_at {
+            self.faulted = true;
+            return Err(io::Error::from(io::ErrorKind::PermissionDenied));
+        }
+        Ok(())
+    }
+}
+
+pub(crate) fn writer_fault_check(n: usize, kl: [usize; MAXW], vl: [usize; MAXW], bsize: usize, interval: usize, levels: u8, max_calls: u32) -> (bool, u32) {
+    let es = any_wents(n, kl, vl);
+    let r = ref_file(&es, n, bsize, interval, levels as usize);
+    set_expected(&r);
+    let fail_at: u32 = kani::any();
+    kani::assume(fail_at >= 1 && fail_at <= max_calls);
+    let mut index_block_writers = Vec::with_capacity(levels as usize + 1);
+    let mut l = 0;
+    while l < 5 {
+        if l <= levels as usize {
+            index_block_writers.push(abs_writer(l + 1, interval));
+        }
+        l += 1;
+    }
+    let mut w = Writer {
+        block_writer: abs_writer(0, interval),
+        index_block_writers,
+        compression_type: CompressionType::None,
+        compression_level: 0,
+        block_size: bsize,
+        entries_count: 0,
+        writer: CountWrite::new(FailCount { n: 0, calls: 0, fail_at, faulted: false }),
+    };
+    let mut failed = false;
+    let mut i = 0;
+    while i < MAXW {
+        if i < n && !failed {
+            let before = w.writer.as_ref().faulted;
+            match w.insert(es[i].key(), es[i].val()) {
+                Ok(()) => assert!(w.writer.as_ref().faulted == before, "C12: the sink failed during insert but insert reported success"),
+                Err(e) => {
+                    assert!(w.writer.as_ref().faulted && !before, "C12: insert reported an error although no component failed");
+                    assert!(e.kind() == io::ErrorKind::PermissionDenied, "C12: the error does not carry the sink's failure");
+                    mem::forget(e);
+                    failed = true;
+                }
+            }
+        }
+        i += 1;
+    }
+    let mut calls = 0;
+    if !failed {
+        match w.into_inner() {
+            Ok(sink) => {
+                assert!(!sink.faulted, "C12: the sink failed during into_inner but into_inner reported success");
+                calls = sink.calls;
+                mem::forget(sink);
+            }
+            Err(e) => {
+                assert!(e.kind() == io::ErrorKind::PermissionDenied, "C12: the error does not carry the sink's failure");
+                mem::forget(e);
+                failed = true;
+            }
+        }
+    } else {
+        mem::forget(w);
+    }
+    (failed, calls)
+}
+
+/// C11 kernel: CountWrite counts what the inner writer ACCEPTED (any Ok(n <= len)) and nothing on Err.
+struct ArbSink {
+    accept: usize,
+    fail: bool,
+}
+impl Write for ArbSink {
+    fn write(&mut self, buf: &[u8]) -> io::Result<usize> {
+        if self.fail {
+            return Err(io::Error::from(io::ErrorKind::Interrupted));
+        }
+        Ok(if self.accept < buf.len() { self.accept } else { buf.len() })
+    }
+    fn flush(&mut self) -> io::Result<()> {
+        Ok(())
+    }
+}
+#[kani::proof]
+#[kani::unwind(4)]
+fn c11_countwrite() {
+    let accept: usize = kani::any();
+    let fail: bool = kani::any();
+    let len: usize = kani::any();
+    kani::assume(len <= 16);
+    let data = [0u8; 16];
+    let mut cw = CountWrite::new(ArbSink { accept, fail });
+    let before = cw.count();
+    match cw.write(&data[..len]) {
+        Ok(n) => {
+            assert!(!fail && n == if accept < len { accept } else { len });
+            assert!(cw.count() == before + n as u64, "C11: CountWrite must count the bytes actually accepted, not the bytes offered");
+        }
+        Err(e) => {
+            assert!(fail && cw.count() == before);
+            mem::forget(e);
+        }
+    }
+    kani::cover!(!fail && accept < len);
+    kani::cover!(!fail && accept >= len && len > 0);
+    kani::cover!(fail);
+}
+
+// ------------------------------------------------------------------------------------------------ native replays
+// Called from tests that vk generates out of a counterexample's concrete values and runs with `cargo kani playback`
+// (native execution: no stub applies, the REAL Writer with REAL BlockWriters runs; the threshold is set through the
+// private field exactly as in the harness).
+pub(crate) fn native_writer_replay(n: usize, kl: [usize; MAXW], vl: [usize; MAXW], bsize: usize, interval: usize, levels: u8, ks: [[u8; 2]; MAXW], vs: [[u8; 2]; MAXW]) {
+    let mut es = [WEnt { klen: 0, k: [0; 2], vlen: 0, v: [0; 2] }; MAXW];
+    for i in 0..MAXW {
+        es[i] = WEnt { klen: kl[i], k: ks[i], vlen: vl[i], v: vs[i] };
+    }
+    for i in 1..n {
+        assert!(es[i - 1].key() < es[i].key(), "REPLAY-INVALID: counterexample keys are not strictly ascending");
+    }
+    let r = ref_file(&es, n, bsize, interval, levels as usize);
+    let mut b = WriterBuilder::new();
+    b.index_levels(levels);
+    b.index_key_interval(NonZeroUsize::new(interval).unwrap());
+    let mut w = b.build(Vec::new());
+    w.block_size = bsize;
+    for i in 0..n {
+        w.insert(es[i].key(), es[i].val()).unwrap();
+    }
+    let bytes = w.into_inner().unwrap();
+    assert!(bytes[..] == r.bytes[..r.len], "REPRODUCED: the real writer's stream differs from the reference encoding: {:?} vs {:?}", bytes, &r.bytes[..r.len]);
+}
+
+pub(crate) fn native_writer_fault_replay(n: usize, kl: [usize; MAXW], vl: [usize; MAXW], bsize: usize, interval: usize, levels: u8, ks: [[u8; 2]; MAXW], vs: [[u8; 2]; MAXW], fail_at: u32) {
+    let mut b = WriterBuilder::new();
+    b.index_levels(levels);
+    b.index_key_interval(NonZeroUsize::new(interval).unwrap());
+    let mut w = b.build(FailCount { n: 0, calls: 0, fail_at, faulted: false });
+    w.block_size = bsize;
+    for i in 0..n {
+        let before = w.writer.as_ref().faulted;
+        match w.insert(&ks[i][..kl[i]], &vs[i][..vl[i]]) {
+            Ok(()) => assert!(w.writer.as_ref().faulted == before, "REPRODUCED: the sink failed during insert but insert reported success"),
+            Err(e) => {
+                assert!(w.writer.as_ref().faulted && !before && e.kind() == io::ErrorKind::PermissionDenied, "REPRODUCED: wrong error from insert");
+                return;
+            }
+        }
+    }
+    match w.into_inner() {
+        Ok(s) => assert!(!s.faulted, "REPRODUCED: the sink failed during into_inner but into_inner reported success"),
+        Err(e) => assert!(e.kind() == io::ErrorKind::PermissionDenied, "REPRODUCED: wrong error from into_inner"),
+    }
+}
+
 include!("writer_gen.rs");
